@@ -16,7 +16,7 @@ from ..fsm import Extracted, Machine, MState, extract, flag_constants
 from ..pm import AnalysisError, unparse
 from ..report import Check
 from ..sym import Resolver, Term, path_of, show, walk
-from . import pushdown, shunting
+from . import loaders, pushdown, shunting
 from .common import const_value, loc, strip
 
 EXPLANATION = (
@@ -29,13 +29,16 @@ EXPLANATION = (
     "guarded; each load unloads first and commits last; the infix->postfix converter and the postfix->tree parser are "
     "interpreted abstractly (sa/absexec.py) as pushdown machines over token classes and compared with the reference "
     "shunting-yard / tree-building machines on every configuration up to a depth bound: unbalanced input is rejected with "
-    "SyntaxError and no configuration leads to an internal error (PD, PD2); every tokeniser separates at any whitespace (X8)"
+    "SyntaxError and no configuration leads to an internal error (PD, PD2); every tokeniser separates at any whitespace (X8); "
+    "LD - Antecedent.load and Consequent.load themselves are interpreted abstractly on an engine with two variables and their own terms "
+    "and compared with the grammar automata (acceptance, SyntaxError, no internal error, propositions / hedges / terms / operators built, "
+    "terms taken from the proposition's own variable); Rule.parse stays on the extracted state machine"
 )
 ASSUMPTIONS = [
     "token classes are disjoint (a token is not at once a keyword, a variable name, a hedge name and a term name)",
     "resource exhaustion (recursion depth of very long antecedents) is not decided",
 ]
-FLOORS = {"X8": 6, "PD": 4, "PD2": 4, "F1": 3, "F-end": 3, "X2": 30, "X4": 6, "O9": 4}
+FLOORS = {"X8": 6, "PD": 4, "PD2": 4, "LD": 8, "F1": 2, "F-end": 1, "X2": 30, "X4": 6, "O9": 4}
 
 ALLOWED = {"SyntaxError", "ValueError", "KeyError", "LookupError"}
 
@@ -865,8 +868,8 @@ def load_atomicity(check: Check, only: str | None = None) -> None:
 
 def run(check: Check) -> None:
     rule_automaton(check)
-    antecedent_automaton(check)
-    consequent_automaton(check)
+    loaders.loader(check, "Antecedent.load")
+    loaders.loader(check, "Consequent.load")
     exception_discipline(check)
     tokenisers(check)
     pushdown.infix_to_postfix(check)
